@@ -15,13 +15,16 @@
 (* branch of the Go code is a branch here (growth, isSingleNode, the copy     *)
 (* loops, Refer / Release with origins, the discard loop of MallocAck, the    *)
 (* split of WriteDirect ...).                                               *)
-(* Buffers: 1 is the read/write buffer, the others are Slice readers.         *)
+(* Buffers: 1 is a read/write buffer; the others are Slice readers or, with   *)
+(* WithAppend, further read/write buffers that can be appended (WriteBuffer). *)
 (***************************************************************************)
 EXTENDS Integers, Sequences, FiniteSets, TLC
 
 CONSTANTS MaxNode, MaxBlk, MaxBuf, Sizes, InitSizes,
           MaxSteps,            \* number of calls explored from the initial state
-          WithWriteDirect      \* WriteDirect with remain > 0 is part of the program space (finding F3 of the code as it is)
+          WithWriteDirect,     \* WriteDirect with remain > 0 is part of the program space (finding F3 of the code as it is)
+          WithAppend,          \* further read/write buffers and WriteBuffer (Append) are part of the program space
+          Dev_AppendKeepsTail  \* deviation: WriteBuffer cuts the chain behind the donor's write node only when the donor had readable data
 
 CapMin == 2
 Inplace == 2
@@ -41,7 +44,8 @@ VARIABLES
 vars == <<nd, nn, pool, nb, bf, owed, last, steps, bad>>
 
 NoNode == [cap |-> 0, len |-> 0, off |-> 0, mal |-> 0, refer |-> 0, unm |-> FALSE, exp |-> FALSE, origin |-> 0, next |-> 0, blk |-> 0, live |-> FALSE]
-NoBuf == [kind |-> "none", head |-> 0, read |-> 0, flush |-> 0, write |-> 0, length |-> 0, msize |-> 0, caches |-> <<>>, cp |-> [blk |-> 0, len |-> 0, cap |-> 0]]
+NoBuf == [kind |-> "none", head |-> 0, read |-> 0, flush |-> 0, write |-> 0, length |-> 0, msize |-> 0, caches |-> <<>>, cp |-> [blk |-> 0, len |-> 0, cap |-> 0],
+          app |-> 0]   \* readable bytes taken over by WriteBuffer and not yet submitted by Flush (contract: only writes until then)
 
 Init ==
     /\ \E s \in InitSizes :
@@ -102,11 +106,12 @@ Commit(S, B, op, b, n, m) ==
     /\ bf' = B /\ last' = [op |-> op, b |-> b, n |-> n, m |-> m, ok |-> TRUE]
     /\ steps < MaxSteps /\ steps' = steps + 1
 
-Malloc(n) ==
-    /\ Alive(1) /\ Budget(1, 1)
-    /\ LET g == Growth(St, bf[1].write, n) S == g[1] w == g[2]
+RW(b) == bf[b].kind = "rw"
+Malloc(b, n) ==
+    /\ RW(b) /\ Budget(1, 1)
+    /\ LET g == Growth(St, bf[b].write, n) S == g[1] w == g[2]
            S2 == [S EXCEPT !.N = [S.N EXCEPT ![w].mal = @ + n]] IN
-       Commit(S2, [bf EXCEPT ![1].write = w, ![1].msize = @ + n], "Malloc", 1, n, 0)
+       Commit(S2, [bf EXCEPT ![b].write = w, ![b].msize = @ + n], "Malloc", b, n, 0)
     /\ UNCHANGED owed
 
 \* the nodes from a to z (inclusive) along next
@@ -116,17 +121,17 @@ RECURSIVE ChainAll(_, _)
 ChainAll(N, a) == IF a = 0 THEN <<>> ELSE <<a>> \o ChainAll(N, N[a].next)
 SeqSum(f, s) == LET RECURSIVE Sm(_) Sm(k) == IF k = 0 THEN 0 ELSE f[s[k]] + Sm(k - 1) IN Sm(Len(s))
 
-Flush ==
-    /\ Alive(1) /\ Budget(1, 0)
-    /\ LET w0 == bf[1].write
+Flush(b) ==
+    /\ RW(b) /\ Budget(1, 0)
+    /\ LET w0 == bf[b].write
            S1 == IF nd[w0].cap > PageSize THEN (LET T == NewNode(St, 0) IN [T EXCEPT !.N = [T.N EXCEPT ![w0].next = T.nn]]) ELSE St
            w == IF nd[w0].cap > PageSize THEN S1.nn ELSE w0
-           ch == Chain(S1.N, bf[1].flush, w)
+           ch == Chain(S1.N, bf[b].flush, w)
            ids == {ch[k] : k \in 1 .. Len(ch)}
            delta == [i \in ids |-> IF S1.N[i].mal > S1.N[i].len THEN S1.N[i].mal - S1.N[i].len ELSE 0]
            tot == SeqSum(delta, ch)
            N2 == [i \in 1 .. MaxNode |-> IF i \in ids /\ delta[i] > 0 THEN [S1.N[i] EXCEPT !.len = S1.N[i].mal] ELSE S1.N[i]] IN
-       Commit([S1 EXCEPT !.N = N2], [bf EXCEPT ![1].write = w, ![1].flush = w, ![1].msize = 0, ![1].length = @ + tot], "Flush", 1, 0, 0)
+       Commit([S1 EXCEPT !.N = N2], [bf EXCEPT ![b].write = w, ![b].flush = w, ![b].msize = 0, ![b].length = @ + tot, ![b].app = 0], "Flush", b, 0, 0)
     /\ UNCHANGED owed
 
 \* MallocAck(k): keep the first k malloc'ed bytes
@@ -135,24 +140,24 @@ AckWalk(N, w, ack) ==    \* returns <<N, write>>
     LET l == N[w].mal - N[w].len IN
     IF l >= ack THEN <<[N EXCEPT ![w].mal = ack + N[w].len], w>>
     ELSE AckWalk(N, N[w].next, ack - l)
-MallocAck(k) ==
-    /\ Alive(1) /\ k <= bf[1].msize
-    /\ LET r == AckWalk(nd, bf[1].flush, k) N1 == r[1] w == r[2]
+MallocAck(b, k) ==
+    /\ RW(b) /\ k <= bf[b].msize /\ bf[b].app = 0
+    /\ LET r == AckWalk(nd, bf[b].flush, k) N1 == r[1] w == r[2]
            rest == ChainAll(N1, N1[w].next)
            ids == {rest[j] : j \in 1 .. Len(rest)}
            N2 == [i \in 1 .. MaxNode |-> IF i \in ids THEN [N1[i] EXCEPT !.mal = N1[i].off, !.refer = 1, !.len = N1[i].off] ELSE N1[i]] IN
-       Commit([St EXCEPT !.N = N2], [bf EXCEPT ![1].write = w, ![1].msize = k], "MallocAck", 1, k, 0)
+       Commit([St EXCEPT !.N = N2], [bf EXCEPT ![b].write = w, ![b].msize = k], "MallocAck", b, k, 0)
     /\ UNCHANGED owed
 
-WriteBinary(n) ==
-    /\ Alive(1) /\ Budget(1, 1)
+WriteBinary(b, n) ==
+    /\ RW(b) /\ Budget(1, 1)
     /\ IF n > Inplace
-       THEN LET S1 == NewNode(St, 0) id == S1.nn w == bf[1].write
+       THEN LET S1 == NewNode(St, 0) id == S1.nn w == bf[b].write
                 S2 == [S1 EXCEPT !.N = [S1.N EXCEPT ![w].next = id, ![id] = [@ EXCEPT !.cap = n, !.len = 0, !.mal = n]]] IN
-            Commit(S2, [bf EXCEPT ![1].write = id, ![1].msize = @ + n], "WriteBinary", 1, n, 0)
-       ELSE LET g == Growth(St, bf[1].write, n) S == g[1] w == g[2]
+            Commit(S2, [bf EXCEPT ![b].write = id, ![b].msize = @ + n], "WriteBinary", b, n, 0)
+       ELSE LET g == Growth(St, bf[b].write, n) S == g[1] w == g[2]
                 S2 == [S EXCEPT !.N = [S.N EXCEPT ![w].mal = @ + n]] IN
-            Commit(S2, [bf EXCEPT ![1].write = w, ![1].msize = @ + n], "WriteBinary", 1, n, 0)
+            Commit(S2, [bf EXCEPT ![b].write = w, ![b].msize = @ + n], "WriteBinary", b, n, 0)
     /\ UNCHANGED owed
 
 \* WriteDirect(extra of n, remain r): the caller has malloc'ed msize bytes and inserts its own memory before the last r of them
@@ -162,7 +167,7 @@ FindOrigin(N, o, m) ==   \* returns <<origin, malloc offset inside it>>
 RECURSIVE LastOf(_, _)
 LastOf(N, a) == IF N[a].next = 0 THEN a ELSE LastOf(N, N[a].next)
 WriteDirect(n, r) ==
-    /\ Alive(1) /\ Budget(2, 0) /\ r <= bf[1].msize /\ bf[1].msize > 0
+    /\ Alive(1) /\ Budget(2, 0) /\ r <= bf[1].msize /\ bf[1].msize > 0 /\ bf[1].app = 0
     /\ (r > 0 => WithWriteDirect)
     /\ LET fo == FindOrigin(nd, bf[1].flush, bf[1].msize - r) o == fo[1] m == fo[2]
            S1 == NewNode(St, 0) dn == S1.nn
@@ -196,7 +201,7 @@ SkipWalk(N, r, ack) ==
     LET l == NLen(N, r) IN IF l >= ack THEN <<[N EXCEPT ![r].off = @ + ack], r>> ELSE SkipWalk(N, N[r].next, ack - l)
 
 Next(b, n) ==
-    /\ Alive(b) /\ n <= bf[b].length /\ Budget(0, 1)
+    /\ Alive(b) /\ bf[b].app = 0 /\ n <= bf[b].length /\ Budget(0, 1)
     /\ LET B0 == Retire(bf[b]) r == SkipEmpty(nd, B0.read, B0.flush) IN
        IF NLen(nd, r) >= n
        THEN /\ Commit([St EXCEPT !.N = [nd EXCEPT ![r].exp = TRUE, ![r].off = @ + n]], [bf EXCEPT ![b] = [B0 EXCEPT !.read = r, !.length = @ - n]], "Next", b, n, 1)
@@ -207,7 +212,7 @@ Next(b, n) ==
             /\ owed' = owed \cup {[buf |-> b, blk |-> kb]}
 
 Peek(b, n) ==
-    /\ Alive(b) /\ n <= bf[b].length /\ Budget(0, 1)
+    /\ Alive(b) /\ bf[b].app = 0 /\ n <= bf[b].length /\ Budget(0, 1)
     /\ LET B0 == bf[b] r == SkipEmpty(nd, B0.read, B0.flush) IN
        IF NLen(nd, r) >= n
        THEN /\ Commit([St EXCEPT !.N = [nd EXCEPT ![r].exp = TRUE]], [bf EXCEPT ![b].read = r], "Peek", b, n, 1)
@@ -221,13 +226,13 @@ Peek(b, n) ==
             /\ owed' = owed \cup {[buf |-> b, blk |-> kb]}
 
 Skip(b, n) ==
-    /\ Alive(b) /\ n <= bf[b].length
+    /\ Alive(b) /\ bf[b].app = 0 /\ n <= bf[b].length
     /\ LET B0 == Retire(bf[b]) sw == SkipWalk(nd, B0.read, n) IN
        Commit([St EXCEPT !.N = sw[1]], [bf EXCEPT ![b] = [B0 EXCEPT !.read = sw[2], !.length = @ - n]], "Skip", b, n, 0)
     /\ UNCHANGED owed
 
 ReadBinary(b, n) ==
-    /\ Alive(b) /\ n <= bf[b].length
+    /\ Alive(b) /\ bf[b].app = 0 /\ n <= bf[b].length
     /\ LET B0 == Retire(bf[b]) r == SkipEmpty(nd, B0.read, B0.flush) cr == Consume(nd, r, n) IN
        Commit([St EXCEPT !.N = cr[1]], [bf EXCEPT ![b] = [B0 EXCEPT !.read = cr[2], !.length = @ - n]], "ReadBinary", b, n, 0)
     /\ UNCHANGED owed
@@ -247,7 +252,7 @@ DoRelease(S, B) ==
     <<S3, [B EXCEPT !.read = r, !.head = rh[2], !.caches = <<>>, !.cp = [blk |-> 0, len |-> 0, cap |-> 0]]>>
 
 Release(b) ==
-    /\ Alive(b)
+    /\ Alive(b) /\ bf[b].app = 0
     /\ LET dr == DoRelease(St, bf[b]) IN Commit(dr[1], [bf EXCEPT ![b] = dr[2]], "Release", b, 0, 0)
     /\ owed' = {o \in owed : o.buf # b}
 
@@ -270,7 +275,7 @@ SliceWalk(S, r, ack, tail) ==
 
 FreeBuf == CHOOSE i \in 1 .. MaxBuf : bf[i].kind = "none" /\ \A j \in 1 .. MaxBuf : bf[j].kind = "none" => i <= j
 Slice(b, n) ==
-    /\ Alive(b) /\ n <= bf[b].length /\ \E i \in 1 .. MaxBuf : bf[i].kind = "none"
+    /\ Alive(b) /\ bf[b].app = 0 /\ n <= bf[b].length /\ \E i \in 1 .. MaxBuf : bf[i].kind = "none"
     /\ Budget(3, 0)
     /\ LET p == FreeBuf B0 == Retire(bf[b]) r == SkipEmpty(nd, B0.read, B0.flush) IN
        IF NLen(nd, r) >= n
@@ -290,19 +295,48 @@ Slice(b, n) ==
 RECURSIVE RelChain(_, _)
 RelChain(S, h) == IF h = 0 THEN S ELSE (LET nx == S.N[h].next IN RelChain(NodeRelease(S, h), nx))
 Close(b) ==
-    /\ Alive(b) /\ b = 1
+    /\ RW(b)
     /\ LET dr == DoRelease(St, bf[b]) S2 == RelChain(dr[1], dr[2].head) IN
        Commit(S2, [bf EXCEPT ![b] = [NoBuf EXCEPT !.kind = "closed"]], "Close", b, 0, 0)
     /\ owed' = {o \in owed : o.buf # b}
 
+\* NewLinkBuffer(size): one more read/write buffer
+NewBuf(s) ==
+    /\ WithAppend /\ Budget(1, 1) /\ \E i \in 1 .. MaxBuf : bf[i].kind = "none"
+    /\ LET p == FreeBuf S1 == NewNode(St, s) id == S1.nn IN
+       Commit(S1, [bf EXCEPT ![p] = [NoBuf EXCEPT !.kind = "rw", !.head = id, !.read = id, !.flush = id, !.write = id]], "NewBuf", p, s, 0)
+    /\ UNCHANGED owed
+
+\* b.WriteBuffer(d) (Append): the donor's chain from its read node to its write node is linked behind b's write node; what the donor
+\* had consumed and what lies behind its write node is released; the donor is dead afterwards.
+\* Contract: the two buffers do not interleave (b has nothing pending or d has nothing readable); until the next Flush only writes;
+\* nothing read from the donor is still owed.
+RECURSIVE RelUpTo(_, _, _)
+RelUpTo(S, h, r) == IF h = r \/ h = 0 THEN S ELSE (LET nx == S.N[h].next IN RelUpTo(NodeRelease(S, h), nx, r))
+WriteBuffer(b, d) ==
+    /\ WithAppend /\ RW(b) /\ RW(d) /\ b # d
+    /\ bf[d].length + bf[d].msize > 0
+    /\ (bf[b].msize = 0 \/ bf[d].length = 0) /\ bf[d].app = 0
+    /\ bf[d].caches = <<>> /\ bf[d].cp.blk = 0 /\ \A o \in owed : o.buf # d
+    /\ LET D == bf[d]
+           N1 == [nd EXCEPT ![bf[b].write].next = D.read]
+           S1 == RelUpTo([St EXCEPT !.N = N1], D.head, D.read)
+           S2 == RelChain(S1, S1.N[D.write].next)
+           cut == D.length > 0 \/ ~Dev_AppendKeepsTail
+           S3 == IF cut THEN [S2 EXCEPT !.N = [S2.N EXCEPT ![D.write].next = 0]] ELSE S2 IN
+       Commit(S3, [bf EXCEPT ![b] = [@ EXCEPT !.write = D.write, !.length = @ + D.length, !.msize = @ + D.msize, !.app = @ + D.length],
+                             ![d] = [NoBuf EXCEPT !.kind = "closed"]], "WriteBuffer", b, 0, d)
+    /\ UNCHANGED owed
+
 Next_ ==
-    \/ \E n \in Sizes : Malloc(n) \/ WriteBinary(n)
-    \/ Flush
-    \/ \E k \in 0 .. 3 : MallocAck(k)
+    \/ \E b \in 1 .. MaxBuf, n \in Sizes : Malloc(b, n) \/ WriteBinary(b, n)
+    \/ \E b \in 1 .. MaxBuf : Flush(b) \/ Close(b)
+    \/ \E b \in 1 .. MaxBuf, k \in 0 .. 3 : MallocAck(b, k)
+    \/ \E s \in InitSizes : NewBuf(s)
+    \/ \E b \in 1 .. MaxBuf, d \in 1 .. MaxBuf : WriteBuffer(b, d)
     \/ \E n \in Sizes, r \in 0 .. 2 : WriteDirect(n, r)
     \/ \E b \in 1 .. MaxBuf, n \in Sizes : Next(b, n) \/ Peek(b, n) \/ Skip(b, n) \/ ReadBinary(b, n) \/ Slice(b, n)
     \/ \E b \in 1 .. MaxBuf : Release(b)
-    \/ Close(1)
 Spec == Init /\ [][Next_]_vars
 \* `last` only reports the call that led here
 ViewNoLast == <<nd, nn, pool, nb, bf, owed, bad, steps>>
@@ -321,10 +355,12 @@ NoEarlyFree == \A o \in owed : o.blk # 0 => pool[o.blk].freed = 0
 Readable(b) == LET c == Chain(nd, bf[b].read, bf[b].flush) IN
                IF bf[b].kind = "sl" THEN SeqSum([i \in 1 .. MaxNode |-> NLen(nd, i)], ChainAll(nd, bf[b].read))
                ELSE SeqSum([i \in 1 .. MaxNode |-> NLen(nd, i)], c)
-LengthOK == \A b \in 1 .. MaxBuf : Alive(b) => bf[b].length = Readable(b)
-Pending == SeqSum([i \in 1 .. MaxNode |-> IF nd[i].mal > nd[i].len THEN nd[i].mal - nd[i].len ELSE 0], ChainAll(nd, bf[1].flush))
-MallocOK == Alive(1) => bf[1].msize = Pending
+LengthOK == \A b \in 1 .. MaxBuf : Alive(b) => bf[b].length = Readable(b) + bf[b].app
+Pending(b) == SeqSum([i \in 1 .. MaxNode |-> IF nd[i].mal > nd[i].len THEN nd[i].mal - nd[i].len ELSE 0], ChainAll(nd, bf[b].flush))
+MallocOK == \A b \in 1 .. MaxBuf : RW(b) => bf[b].msize = Pending(b)
 NoDeadRelease == "release_of_dead_node" \notin bad
-ChainOK == Alive(1) => /\ bf[1].read \in Reach(1) /\ bf[1].flush \in Reach(1) /\ bf[1].write \in Reach(1)
-                       /\ \A i \in Reach(1) : nd[i].live
+ChainOK == \A b \in 1 .. MaxBuf : RW(b) => /\ bf[b].read \in Reach(b) /\ bf[b].flush \in Reach(b) /\ bf[b].write \in Reach(b)
+                                            /\ \A i \in Reach(b) : nd[i].live
+\* no node belongs to two live buffers' chains, and no chain runs into itself (ChainAll terminates: a node occurs once)
+NoSharedNode == \A b1, b2 \in 1 .. MaxBuf : (RW(b1) /\ RW(b2) /\ b1 # b2) => Reach(b1) \cap Reach(b2) = {}
 =============================================================================
